@@ -312,9 +312,12 @@ def rule_pipeline(ctx):
     it = ctx.fn("iterate_sat:IterateSATGen.sample")
     cs = [c for c in calls(it.node) if call_attr(c) == "sample_non_uniform"]
     ctx.require(len(cs) == 1 and len(cs[0].args) == 5, "IterateSATGen.sample: sample_non_uniform call not found")
-    args = [ast.unparse(a) for a in cs[0].args]
-    ctx.check(args[1] == "CNF(backend_request.get_cnfs_as_json())" and args[2] == "backend_request.fresh - 1" and args[3] == "block.variables_per_sample()" and
-              args[4] == "backend_request.get_requests_as_generation_requests()", R, it, "solver input %s" % args[1:],
+    Fit = Facts(it)
+    cst_ = Fit.stmt_of(cs[0])
+    args = [str(Fit.at(cst_, a)) for a in cs[0].args]
+    B_ = "block.build_backend_request()"
+    ctx.check(args[1] == "CNF(%s.get_cnfs_as_json())" % B_ and args[2] == "-1 + %s.fresh" % B_ and args[3] == "block.variables_per_sample()" and
+              args[4] == "%s.get_requests_as_generation_requests()" % B_, R, it, "solver input %s" % args[1:],
               "the solver gets the clauses, the highest used variable, the trial-variable prefix and the cardinality requests of the request just built",
               "IterateSATGen passes %s" % args[1:], cs[0])
     F = Facts(it)
@@ -324,16 +327,17 @@ def rule_pipeline(ctx):
               "IterateSATGen decodes as %s" % res)
     ug = ctx.fn("sampling_strategy.unigen:UniGen.sample")
     Fu = Facts(ug)
-    src = ast.unparse(ug.node)
-    ctx.check("backend_request = block.build_backend_request()" in src and "Gen.decode(block, s.assignment)" in src, R, ug, "UniGen builds and decodes", "UniGen / CMSGen build the request from this block and decode every assignment",
+    dec_u = [a for v in ("result", "decoded_samples", "samples") for a in Fu.assigns(v) if "Gen.decode" in a] + [r for r in Fu.returns() if "Gen.decode" in r]
+    ctx.check(Fu.assigns("backend_request") == ["block.build_backend_request()"] and bool(dec_u) and all("[Gen.decode(block, _b0.assignment) for _b0 in " in d for d in dec_u), R, ug, "UniGen builds and decodes", "UniGen / CMSGen build the request from this block and decode every assignment",
               "UniGen.sample no longer builds its request from the block / decodes with Gen.decode")
     su = [c for c in calls(ug.node) if call_attr(c) == "sample_uniform"]
     ctx.require(len(su) == 1, "UniGen.sample: sample_uniform call not found")
-    uargs = [ast.unparse(a) for a in su[0].args]
-    ctx.check("CNF(backend_request.get_cnfs_as_json())" in uargs and "backend_request.fresh - 1" in uargs and "block.variables_per_sample()" in uargs and
-              "backend_request.get_requests_as_generation_requests()" in uargs, R, ug, "sampler input", "the sampler gets the same four quantities", "UniGen passes %s" % uargs, su[0])
+    ust_ = Fu.stmt_of(su[0])
+    uargs = [str(Fu.at(ust_, a)) for a in su[0].args] + [str(Fu.at(ust_, k.value)) for k in su[0].keywords]
+    ctx.check("CNF(%s.get_cnfs_as_json())" % B_ in uargs and "-1 + %s.fresh" % B_ in uargs and "block.variables_per_sample()" in uargs and
+              "%s.get_requests_as_generation_requests()" % B_ in uargs, R, ug, "sampler input", "the sampler gets the same four quantities", "UniGen passes %s" % uargs, su[0])
     cm = ctx.fn("cmsgen:CMSGen.sample")
-    ctx.check(Facts(cm).returns() == ["UniGen.sample(block, sample_count, min_search, use_cmsgen=True)"], R, cm, "CMSGen delegates", "CMSGen is UniGen's pipeline with the other sampler",
+    ctx.check(Facts(cm).returns() in (["UniGen.sample(block, sample_count, min_search, use_cmsgen=True)"], ["UniGen.sample(block, sample_count, min_search=min_search, use_cmsgen=True)"]), R, cm, "CMSGen delegates", "CMSGen is UniGen's pipeline with the other sampler",
               "CMSGen.sample returns %s" % Facts(cm).returns())
     br = ctx.cls("backend:BackendRequest")
     gj = br.methods.get("get_cnfs_as_json")
